@@ -200,6 +200,7 @@ func (r *Run) stmtFuzz(ssn *framework.Session) {
 		var cps []cpRec
 		evicted := []*pod_info.PodInfo{}
 		touched := map[string]bool{}
+		unevictedOnce := map[string]bool{} // pods evicted and un-evicted again within the current statement
 		tainted := "" // known-finding signature seen inside this statement
 		nOps := 0
 		converted := false
@@ -226,11 +227,53 @@ func (r *Run) stmtFuzz(ssn *framework.Session) {
 				}
 				sort.Slice(cands, func(i, j int) bool { return cands[i].Name < cands[j].Name })
 				t := cands[op.A%len(cands)]
+				// B odd: prefer a pod this statement has already evicted and un-evicted (evict / un-evict / evict again)
+				if op.B%2 == 1 {
+					for _, c := range cands {
+						if unevictedOnce[c.Name] {
+							t = c
+							r.Probe("c13_op_re_evict")
+							break
+						}
+					}
+				}
 				if err := stmt.Evict(t, "fuzz", eviction_info.EvictionMetadata{Action: "reclaim", EvictionGangSize: 1}); err == nil {
 					evicted = append(evicted, t)
 					touched[t.Name] = true
 					r.Probe("c13_op_evict")
 				}
+			case "reevict": // evict, un-evict, evict again (and, B odd, un-evict again) the same running pod in one statement
+				var cands []*pod_info.PodInfo
+				for _, job := range ssn.ClusterInfo.PodGroupInfos {
+					for _, t := range job.GetAllPodsMap() {
+						if pod_status.AllocatedStatus(t.Status) && t.Status != pod_status.Allocated && t.NodeName != "" {
+							cands = append(cands, t)
+						}
+					}
+				}
+				if len(cands) == 0 {
+					continue
+				}
+				sort.Slice(cands, func(i, j int) bool { return cands[i].Name < cands[j].Name })
+				t := cands[op.A%len(cands)]
+				md := eviction_info.EvictionMetadata{Action: "reclaim", EvictionGangSize: 1}
+				if stmt.Evict(t, "fuzz", md) != nil {
+					continue
+				}
+				touched[t.Name] = true
+				if !(t.Status == pod_status.Releasing && t.IsVirtualStatus) || stmt.Unevict(t) != nil {
+					evicted = append(evicted, t)
+					continue
+				}
+				if stmt.Evict(t, "fuzz", md) != nil {
+					continue
+				}
+				r.Probe("c13_op_re_evict")
+				if op.B%2 == 1 && t.Status == pod_status.Releasing && t.IsVirtualStatus && stmt.Unevict(t) == nil {
+					r.Probe("c13_op_re_unevict")
+					continue
+				}
+				evicted = append(evicted, t)
 			case "unevict":
 				if len(evicted) == 0 {
 					continue
@@ -240,6 +283,7 @@ func (r *Run) stmtFuzz(ssn *framework.Session) {
 				if t.Status == pod_status.Releasing && t.IsVirtualStatus {
 					if err := stmt.Unevict(t); err == nil {
 						r.Probe("c13_op_unevict")
+						unevictedOnce[t.Name] = true
 					}
 				}
 				evicted = append(evicted[:i], evicted[i+1:]...)
@@ -291,6 +335,7 @@ func (r *Run) stmtFuzz(ssn *framework.Session) {
 				}
 				cps = cps[:i+1]
 				evicted = nil
+				unevictedOnce = map[string]bool{}
 			case "convert":
 				var js []string
 				for _, job := range ssn.ClusterInfo.PodGroupInfos {
